@@ -249,9 +249,9 @@ def run_model_shard(path, timeout):
     return {"path": path, "bad": bad}
 
 
-def run_model(meta, timeout):
+def run_model(meta, timeout, workers=16):
     shards = meta.get("shards", [])
-    with ThreadPoolExecutor(max_workers=16) as ex:
+    with ThreadPoolExecutor(max_workers=workers) as ex:
         return list(ex.map(lambda p: run_model_shard(p, timeout), shards))
 
 
@@ -355,6 +355,8 @@ def main():
         else:
             outdir = os.path.join(WORK, pid, "cases")
             extra = ["--replay", replay] if replay else []
+            if tier == "thorough" and P.get("thorough_scale") and not replay:
+                extra += ["--scale", str(P["thorough_scale"])]
             shards = 16 if tier == "thorough" else P.get("quick_shards", 8)
             rc, out, meta = run_harness(binname, pid, tier, seed, outdir, shards, extra,
                                         timeout=P.get("harness_timeout", 1500))
@@ -369,7 +371,8 @@ def main():
                         rcm, outm = make_targets([P["run_vo"]], timeout=900)
                         if rcm != 0:
                             broken.append("model runner does not compile: " + outm[-800:])
-                    results = run_model(meta, timeout=P.get("model_timeout", 900) if tier == "quick" else max(3000, P.get("model_timeout", 900)))
+                    results = run_model(meta, timeout=P.get("model_timeout", 900) if tier == "quick" else max(3000, P.get("model_timeout", 900)),
+                                        workers=P.get("model_workers", 16))
                     for r in results:
                         if "error" in r:
                             corr["model_errors"].append(r["error"][-600:])
